@@ -56,6 +56,16 @@ def _tree_files(root, exts):
     return sorted(out)
 
 
+def _prune_cache(root, keep):
+    """keep the most recently used compiled-extension sets only"""
+    try:
+        ents = sorted((os.path.getmtime(os.path.join(root, x)), x) for x in os.listdir(root))
+        for _, x in ents[:-keep]:
+            shutil.rmtree(os.path.join(root, x), ignore_errors=True)
+    except OSError:
+        pass
+
+
 def prepare_impl(ctx):
     """rsync /repo's working tree to the scratch dir and (re)build the Cython extensions from the
     current .pyx sources (cached by the hash of the .pyx files and setup.py)."""
@@ -66,9 +76,10 @@ def prepare_impl(ctx):
                     "--exclude", "*.egg-info", "--exclude", ".pytest_cache", REPO + "/", dst + "/"], check=True)
     h = hashlib.sha256()
     for f in _tree_files(os.path.join(dst, "scriptplan", "_cython"), (".pyx",)) + [os.path.join(dst, "setup.py")]:
-        h.update(f.encode() + b"\0" + open(f, "rb").read())
+        h.update(os.path.relpath(f, dst).encode() + b"\0" + open(f, "rb").read())
     key = h.hexdigest()[:20]
     cache = os.path.join(BUILD, "cache", "so", key)
+    _prune_cache(os.path.dirname(cache), keep=24)
     cyd = os.path.join(dst, "scriptplan", "_cython")
     if not (os.path.isdir(cache) and len([x for x in os.listdir(cache) if x.endswith(".so")]) >= 1):
         for f in os.listdir(cyd):
@@ -86,6 +97,10 @@ def prepare_impl(ctx):
         else:
             os.makedirs(os.path.dirname(cache), exist_ok=True)
             os.rename(tmp, cache)
+    try:
+        os.utime(cache)
+    except OSError:
+        pass
     for x in os.listdir(cache):
         if x.endswith(".so"):
             shutil.copy2(os.path.join(cache, x), cyd)
